@@ -79,7 +79,7 @@ B64B = B64.encode()
 
 # ----------------------------------------------------------------------------- plan
 def plan(tier):
-    specs = [{"part": "sizes"}]
+    specs = [{"part": "sizes"}, {"part": "fork"}]
     if tier == "quick":
         for i in range(6):
             specs.append({"part": "pw", "n": 35, "i": i})
@@ -447,6 +447,40 @@ def string_case(ctx, S, qspec, hs, meta=None, untouched=None):
 
 # ----------------------------------------------------------------------------- part enum
 P0 = [b"correct horse", b"", b"pass\0word", b"\xff" * 40]
+
+
+def _fork_hash(pw):
+    from mpgameserver.auth import Auth
+    return Auth.hash_password(pw)
+
+
+def run_fork(spec, ctx):
+    """"each has a fresh salt" also across worker processes: servers hash in forked workers (the docs recommend a task pool),
+    and a salt source that lives in process memory is inherited by every fork.  The parent hashes once (so that any lazily
+    created state exists), then several forked one-task workers hash the same password"""
+    import multiprocessing
+    S = State(ctx)
+    pw = b"forked worker"
+    case = {"part": "fork"}
+    ctx.case(case)
+    h0 = lib_hash(S, pw)
+    mpc = multiprocessing.get_context("fork")
+    hashes = []
+    for _ in range(3):
+        with mpc.Pool(processes=1, maxtasksperchild=1) as pool:
+            hashes.append(pool.apply(_fork_hash, (pw,)))
+    with mpc.Pool(processes=2, maxtasksperchild=1) as pool:
+        hashes += pool.map(_fork_hash, [pw, pw], chunksize=1)
+    allh = [h0] + hashes
+    if len(set(allh)) != len(allh):
+        S.violation("salt-not-fresh", "hashes of one password made in forked worker processes repeat: %r" % (sorted(allh),), case)
+    for h in hashes:
+        kind, val = lib_verify(pw, h)
+        if kind != "ret" or val is not True:
+            S.violation("right-password-rejected", "a hash made in a forked worker does not verify in the parent: %r -> %r" % (h, val), case)
+    ctx.nt(("fork", len(hashes)))
+    ctx.label("pw:hashed-in-forked-workers", len(hashes))
+    ctx.sample({"part": "fork", "workers": len(hashes)})
 
 
 def run_sizes(spec, ctx):
@@ -827,6 +861,8 @@ def run_shard(spec, ctx):
         run_struct(spec, ctx)
     elif part == "sizes":
         run_sizes(spec, ctx)
+    elif part == "fork":
+        run_fork(spec, ctx)
     else:
         raise ValueError("unknown part %r" % part)
 
@@ -843,6 +879,8 @@ def replay_case(case, ctx):
             raise ValueError("replay case exceeds the scrypt cost cap and cannot be evaluated")
     elif part == "sizes":
         run_sizes({}, ctx)
+    elif part == "fork":
+        run_fork({}, ctx)
     elif part == "types":
         p0 = pw_bytes(case["p"])
         h0 = lib_hash(S, p0)
